@@ -40,6 +40,13 @@ Definition cclose (a b : C) : bool := qclose (re a) (re b) && qclose (im a) (im 
 Definition qs (l : fl) : list Q := map f2q l.
 Definition cs (l : cfl) : list C := map (fun p => (f2q (fst p), f2q (snd p))) l.
 Definition close_fn (f : nat -> Q) (n : nat) (out : fl) : bool := all2 qclose (tab f n) (qs out).
+(* tolerances relative to the scale of the data of the case: |a-b| <= 1e-9 (max|data| + |a| + |b|) *)
+Definition qabs_max (l : list Q) : Q := fold_left (fun m q => Qred (Qmax' m (Qabsb q))) l 0.
+Definition qclose_s (s a b : Q) : bool := closeb_tol tolr (tola * s) a b.
+Definition cclose_s (s : Q) (a b : C) : bool := qclose_s s (re a) (re b) && qclose_s s (im a) (im b).
+Definition close_fn_s (s : Q) (f : nat -> Q) (n : nat) (out : fl) : bool :=
+  all2 (qclose_s s) (tab f n) (qs out).
+Definition cabs_max (l : list C) : Q := qabs_max (map re l ++ map im l).
 Definition finite_all (l : fl) : bool := forallb ffinite l.
 
 Definition axis_eqb (a b : axis) : bool :=
@@ -72,10 +79,12 @@ Definition check (c : case) : bool :=
   match c with
   | KFourier n Fs lb ub X Z =>
       (length X =? n)%nat && (length Z =? n)%nat &&
-      all2 cclose (tab (fourier_spec (f2q Fs) n (f2q lb) (option_map f2q ub) (lc (cs X))) n) (cs Z)
+      all2 (cclose_s (cabs_max (cs X)))
+           (tab (fourier_spec (f2q Fs) n (f2q lb) (option_map f2q ub) (lc (cs X))) n) (cs Z)
   | KChain n x raws out =>
       (length x =? n)%nat && forallb (fun r => (length r =? n)%nat) raws &&
-      close_fn (chain n (lq (qs x)) (map (fun r => lq (qs r)) raws)) n out
+      close_fn_s (qabs_max (qs x ++ concat (map qs raws)))
+                 (chain n (lq (qs x)) (map (fun r => lq (qs r)) raws)) n out
   | KFirPlan Fs lb ub order n o => plan_ok (fir_plan (f2q Fs) (f2q lb) (option_map f2q ub) order n) o
   | KTaps hp ntaps fw b =>
       (length fw =? ntaps)%nat &&
@@ -86,12 +95,12 @@ Definition check (c : case) : bool :=
       if boxcar_defined iters then
         negb err && (length x =? n)%nat &&
         (let cfg := box_cfg (f2q Fs) (f2q lb) (option_map f2q ub) in
-         close_fn (boxcar_out n (fst cfg) (snd cfg) (lq (qs x))) n out)
+         close_fn_s (qabs_max (qs x)) (boxcar_out n (fst cfg) (snd cfg) (lq (qs x))) n out)
       else err
   | KBoxFilter n lbf ubf iters x out err =>
       if boxcar_defined iters then
         negb err && (length x =? n)%nat &&
         (let Llb := if Qeq_bool (f2q lbf) 0 then None else Some (box_len (f2q lbf)) in
-         close_fn (boxcar_chan n (box_len (f2q ubf)) Llb (lq (qs x))) n out)
+         close_fn_s (qabs_max (qs x)) (boxcar_chan n (box_len (f2q ubf)) Llb (lq (qs x))) n out)
       else err
   end.
